@@ -1413,6 +1413,18 @@ static void ares_detach_query(ares_query_t *query)
   query->node_all_queries = NULL;
 }
 
+/* Release a query that is no longer linked into any index */
+static void ares_free_detached_query(ares_query_t *query)
+{
+  /* Zero out some important stuff, to help catch bugs */
+  query->callback = NULL;
+  query->arg      = NULL;
+  /* Deallocate the memory associated with the query */
+  ares_dns_record_destroy(query->query);
+
+  ares_free(query);
+}
+
 static void end_query(ares_channel_t *channel, ares_server_t *server,
                       ares_query_t *query, ares_status_t status,
                       const ares_dns_record_t *dnsrec)
@@ -1425,9 +1437,14 @@ static void end_query(ares_channel_t *channel, ares_server_t *server,
 
   ares_metrics_record(query, server, status, dnsrec);
 
+  /* Detach the query from every index before invoking the callback.  The
+   * callback may re-enter the library (e.g. ares_cancel()) and must not be
+   * able to reach, complete and free this query a second time. */
+  ares_detach_query(query);
+
   /* Invoke the callback. */
   query->callback(query->arg, status, query->timeouts, dnsrec);
-  ares_free_query(query);
+  ares_free_detached_query(query);
 
   /* Check and notify if no other queries are enqueued on the channel.  This
    * must come after the callback and freeing the query for 2 reasons.
@@ -1440,11 +1457,5 @@ static void end_query(ares_channel_t *channel, ares_server_t *server,
 void ares_free_query(ares_query_t *query)
 {
   ares_detach_query(query);
-  /* Zero out some important stuff, to help catch bugs */
-  query->callback = NULL;
-  query->arg      = NULL;
-  /* Deallocate the memory associated with the query */
-  ares_dns_record_destroy(query->query);
-
-  ares_free(query);
+  ares_free_detached_query(query);
 }
